@@ -233,7 +233,7 @@ def judgeMml (arg impl : String) : String :=
       | none => "ok"
       | some ast =>
         let text := (parseLines arg).bind (·.head?)
-        if text != some (Lexer.strBytes (MmlMeaning.render ast)) then "fail render_mismatch (generator and Spec.render disagree)" else
+        if text != some (MmlMeaning.renderBytes ast) then "fail render_mismatch (generator and Spec.render disagree)" else
         let exp := MmlMeaning.meaning ast
         if !exp.exact then "ok inexact" else
         if fieldOf impl "err" != some "-" then s!"fail rejected {(fieldOf impl "err").getD "?"}" else
